@@ -338,6 +338,19 @@ void run_case(vh::Case& c, int group, bool validity_mode, bool allow_mini, bool 
     c.count("gen.retry_not_exact_metric");
     if (++tries >= 8) { cl = gen_generic(r, n); break; }
   }
+  // The guarantee is scale invariant ("every finite point set in a metric space"): half of the cases rescale the whole
+  // metric by a power of two (exact in binary floating point, so the relative checks below are unchanged), down to
+  // distances far below sqrt(machine epsilon) and up to 2^60.
+  {
+    static const int shifts[] = {-40, -30, -20, -10, 10, 30, 60};
+    int sh = r.chance(1, 2) ? 0 : shifts[r.below(7)];
+    if (sh != 0) {
+      const double f = std::ldexp(1.0, sh);
+      for (auto& row : cl.D) for (auto& x : row) x *= f;
+      c.count(sh < 0 ? "scale.pow2_negative" : "scale.pow2_positive");
+      if (sh <= -30) c.count("scale.distances_below_1e-8");
+    } else c.count("scale.unit");
+  }
   const Matrix& D = cl.D;
 
   // ---- epsilon, bounds
